@@ -1,12 +1,22 @@
 package checks
 
+import (
+	"fmt"
+
+	"verif/internal/hist"
+	"verif/internal/vc"
+)
+
 func init() {
 	Registry["C03"] = func(c *Ctx) {
-		c.R.Rule = "Pool alone: the real TaskWorkerPool driven directly by 2-4 callers on 1-2 workers with no stop / an interrupt / a task that cancels when it ends / a direct Shutdown (plus early-clock-tick variants when callers wait in the queue), every schedule with <= 3 (quick; bound 2 complete) / 4 deviations: no panic, never more than num_workers tasks running, no task twice, Run returns its own task's result, at most 2*num_workers already accepted jobs (queue + one per worker) start after Shutdown returned. scenario = (graph of <=4 nodes incl. alias / unselected node, <=1 failing target, num_workers in {1,2}); the real dag.Walker + real TaskWorkerPool run under the controlled scheduler for EVERY choice sequence with <= d deviations; on every execution: a command starts only after all transitive dependencies ended successfully, no command starts twice, running commands <= num_workers. Non-trivial = at least one command ran; distinct (scenario, observable trace) pairs are counted. Second part (real binary): histories of <= 3/4 operations over {edit, taint, build} on the chain workspace in load_outputs all and minimal with the no-cache tag on nobody / x / y: no command appears twice in the trace of one build."
+		c.R.Rule = "Pool alone: the real TaskWorkerPool driven directly by 2-4 callers on 1-2 workers with no stop / an interrupt / a task that cancels when it ends / a direct Shutdown (plus early-clock-tick variants when callers wait in the queue), every schedule with <= 3 (quick; bound 2 complete) / 4 deviations: no panic, never more than num_workers tasks running, no task twice, Run returns its own task's result, at most 2*num_workers already accepted jobs (queue + one per worker) start after Shutdown returned. scenario = (graph of <=4 nodes incl. alias / unselected node, <=1 failing target, num_workers in {1,2}); the real dag.Walker + real TaskWorkerPool run under the controlled scheduler for EVERY choice sequence with <= d deviations; on every execution: a command starts only after all transitive dependencies ended successfully, no command starts twice, running commands <= num_workers. Non-trivial = at least one command ran; distinct (scenario, observable trace) pairs are counted. Second part (real binary): histories of <= 3/4 operations over {edit, taint, build} on the chain workspace in load_outputs all and minimal with the no-cache tag on nobody / x / y: no command appears twice in the trace of one build. Per-target locks: the real maps.MutexMap alone, 2-3 goroutines x 1-2 rounds on one name (and a second name), mutex and atomic operations as scheduling points, <= 3/5 deviations: never two holders, Unlock never fails, nobody waits forever. Declared edges (real binary): a target depending on two same-named targets of different packages / on a target and an alias / twice on one target starts after every dependency's command has ended."
 		c.R.Assume("commands are stubs with one scheduling point between start and end (latency = any number of other steps, including zero)", "scheduling points at every lock / once / wait / channel operation / select / close / goroutine start of graph_walker.go and task_worker_pool.go", "interleavings beyond the deviation bound are not covered; hashing / output-loading mutexes are covered by the second harness (mutexmap)")
 		walkCheckBudget("C03", []string{"C03:", "C12:"}, 2, 3, 40, 420)(c)
 		// the pool alone (small driver, deviation bound 3 / 4): never more than num_workers tasks, no task twice
 		poolCheck(c, "C03", []string{"C03:"})
+		// the per-target locks that make "each target once" hold for the hasher and the output registry
+		mutexMapCheck(c, "C03", []string{"C03:", "C04:"})
+		c03DeclaredEdges(c)
 		// "each selected target is executed at most once per build" with the real binary: the chain
 		// workspace in both load_outputs modes and all no-cache-tag universes (a no-cache dependency
 		// must not be executed again by each executing dependant)
@@ -17,12 +27,12 @@ func init() {
 		})(c)
 	}
 	Registry["C05"] = func(c *Ctx) {
-		c.R.Rule = "two halves. Schedules: scenario = (graph of <=4 nodes, non-empty set of failing targets (<=1 quick, <=2 thorough), keep-going or fail-fast, num_workers); real Walker + pool under every choice sequence with <= d deviations; keep-going executes exactly selected minus (failed and their descendants), every failure is in the completion map, with fail-fast no command starts after the failing node's routine recorded the failure. Histories: breadth-first search over histories of <= n operations from {make //p:x or //p:y fail (exit code, missing declared output), remove the failure, grog taint, grog build, grog build --fail-fast} with the REAL binary on the chain workspace x->y->z: dependants of a failed target are not executed, independent targets are, grog exits non-zero naming the failed targets, and a failed target leaves no cache entry (the follow-up build attempts it and its dependants again). Non-trivial = at least one command ran / a build executed some but not all targets."
+		c.R.Rule = "two halves. Schedules: scenario = (graph of <=4 nodes, non-empty set of failing targets (<=1 quick, <=2 thorough), keep-going or fail-fast, num_workers); real Walker + pool under every choice sequence with <= d deviations; keep-going executes exactly selected minus (failed and their descendants), every failure is in the completion map, with fail-fast no command starts after the failing node's routine recorded the failure. Histories: breadth-first search over histories of <= n operations from {make //p:x or //p:y fail (exit code, a failing statement that is not the command's last one, missing declared output), remove the failure, grog taint, grog build, grog build --fail-fast} with the REAL binary on the chain workspace x->y->z: dependants of a failed target are not executed, independent targets are, grog exits non-zero naming the failed targets, and a failed target leaves no cache entry (the follow-up build attempts it and its dependants again). Non-trivial = at least one command ran / a build executed some but not all targets."
 		c.R.Assume("commands of the schedule half are stubs; a stub does not start under a cancelled context (like exec.CommandContext)", "failures of the history half are driven by marker files outside the declared inputs (an external condition), so the failing and the succeeding attempt have the same cache key")
 		walkCheckBudget("C05", []string{"C05:"}, 2, 3, 25, 400)(c)
 		chainCheck("C05", []string{"C05:", "C04:build-hangs"}, 5, 6, func(e *chainEngine, thorough bool) {
 			e.universes = []chainState{{}, {Queue: true}}
-			e.ops = []chainOp{markOp("fail-y-exit"), markOp("fail-x-exit"), markOp("fail-y-noout"), opTaintY, opBuild, opBuildFF}
+			e.ops = []chainOp{markOp("fail-y-exit"), markOp("fail-x-exit"), markOp("fail-y-noout"), markOp("fail-y-mid"), opTaintY, opBuild, opBuildFF}
 			if thorough {
 				e.ops = append(e.ops, markOp("fail-y-timeout"), opEditY)
 			}
@@ -38,5 +48,62 @@ func init() {
 		// the pool alone: after Shutdown has returned at most the already accepted jobs (queue + one per worker) may still start
 		poolCheck(c, "C18", []string{"C18:", "C04:panic"})
 		c18Signals(c)
+	}
+}
+
+// c03DeclaredEdges: "dependencies first" from the BUILD files down (the walk harness builds its graphs through
+// the dag API): a target that depends on two targets with the SAME NAME in different packages, on a target and
+// on an alias of another one, and twice on the same target; the slow dependency is listed last. The dependant's
+// command must start after every dependency's command has ended (trace written by the commands themselves).
+func c03DeclaredEdges(c *Ctx) {
+	grog, err := vc.BuildGrog("grog", nil)
+	if err != nil {
+		c.R.BrokenCheck("%v", err)
+		return
+	}
+	base, cleanup := scratchBase(c, "c03edges")
+	defer cleanup()
+	slow := traceStart + "\nsleep 0.5\nprintf slow > lib.txt\necho \"end $GROG_TARGET\" >> \"$VTRACE\""
+	fast := traceStart + "\nprintf fast > lib.txt\necho \"end $GROG_TARGET\" >> \"$VTRACE\""
+	type variant struct {
+		name string
+		deps []string
+	}
+	for _, v := range []variant{
+		{"same name in two packages, slow one listed last", []string{"//a:lib", "//b:lib"}},
+		{"same name in two packages, slow one listed first", []string{"//b:lib", "//a:lib"}},
+		{"target and alias of the same-named other one", []string{"//a:lib", "//b:al"}},
+		{"the fast dependency listed twice, then the slow one", []string{"//a:lib", "//a:lib", "//b:lib"}},
+	} {
+		src := &hist.Source{Files: map[string]hist.File{}, Toml: "num_workers = 4\n"}
+		src.Targets = append(src.Targets,
+			hist.Target{Pkg: "a", Name: "lib", Outputs: []string{"lib.txt"}, Command: fast},
+			hist.Target{Pkg: "b", Name: "lib", Outputs: []string{"lib.txt"}, Command: slow},
+			hist.Target{Pkg: "app", Name: "app", Deps: v.deps, Outputs: []string{"app.txt"}, Command: traceStart + "\ncat ../a/lib.txt ../b/lib.txt > app.txt\necho \"end $GROG_TARGET\" >> \"$VTRACE\""})
+		src.Aliases = append(src.Aliases, hist.Alias{Pkg: "b", Name: "al", Actual: ":lib"})
+		box, err := hist.NewBox(base)
+		if err != nil {
+			c.R.BrokenCheck("%v", err)
+			return
+		}
+		src.Materialize(box.WS(), nil)
+		rr := box.Run(grog, hist.RunOpts{Args: []string{"build", "//..."}, Ceiling: 60e9})
+		replay := map[string]any{"workspace": v.name, "dependencies_of_app": v.deps, "exit": rr.Exit, "trace": rr.Trace, "grog_output_tail": tail(rr.Output, 500)}
+		pos := map[string]int{}
+		for i, l := range rr.Trace {
+			pos[l] = i + 1
+		}
+		for _, dep := range []string{"//a:lib", "//b:lib"} {
+			if pos["start //app:app"] != 0 && (pos["end "+dep] == 0 || pos["end "+dep] > pos["start //app:app"]) {
+				c.R.Violate(vc.Violation{Sig: "C03:started-before-dependency-finished", Detail: fmt.Sprintf("%s: //app:app (dependencies %v) started before %s had finished; trace %v", v.name, v.deps, dep, rr.Trace), Replay: replay})
+			}
+		}
+		if rr.Exit != 0 {
+			c.R.Violate(vc.Violation{Sig: "C03:build-with-same-named-dependencies-fails", Detail: fmt.Sprintf("%s: grog exited %d: %s", v.name, rr.Exit, tail(rr.Output, 300)), Replay: replay})
+		}
+		c.R.AddCounts(1, 1, 1, 1)
+		c.R.Outcome("declared-edges|" + v.name)
+		c.R.Nontrivial("declared-edges|" + v.name)
+		box.Remove()
 	}
 }
